@@ -10,6 +10,8 @@ mod c13;
 mod c04;
 mod c08;
 mod c12;
+mod c20;
+mod c11;
 mod cli;
 mod ledger;
 
@@ -77,6 +79,9 @@ fn main() {
         "c04" => c04::run(&o),
         "c08" => c08::run(&o),
         "c12" => c12::run(&o),
+        "c20" => c20::run(&o),
+        "c11" => c11::run(&o),
+        "c11-child" => c11::child(&args[2..]),
         _ => {
             eprintln!("unknown property {}", prop);
             std::process::exit(2);
